@@ -640,7 +640,7 @@ type Replay struct {
 // Returns the process exit code.
 func (m *Master) Run(verifDir string, seed int) int {
 	start := time.Now()
-	m.units = m.Check.Units(m.Tier)
+	m.units = m.Check.AllUnits(m.Tier)
 	m.Classes = map[string]int{}
 	m.Stats = map[string]int{}
 	m.Exhaustive = true
